@@ -43,6 +43,9 @@ pub const FORMULAS: &[&str] = &[
     "=LEN(\"日本\")",
     "=myname+1",
     "=local",
+    "=\"\"",
+    "=REPT(\"x\",0)",
+    "=IF(A1>0,\"\",1)",
 ];
 
 /// Array-valued formulas whose FIRST (anchor) value is of every kind — boolean (FALSE/TRUE), number, text,
@@ -658,7 +661,7 @@ pub fn gen_arms_model() -> Model<'static> {
     let _ = m.set_user_input(0, 3, 1, "#N/A".to_string());
     let _ = m.update_cell_with_text(0, 4, 1, "text");
     let _ = m.set_cell_style(0, 5, 1, &gen_style(&mut Rng::new(3)));
-    for (i, f) in ["=A1>1", "=A1*2", "=A1&\"x\"", "=1/0"].iter().enumerate() {
+    for (i, f) in ["=A1>1", "=A1*2", "=A1&\"x\"", "=1/0", "=\"\""].iter().enumerate() {
         let _ = m.set_user_input(0, 1 + i as i32, 2, f.to_string());
     }
     // dynamic arrays in row 1 of every second column from D on, each spilling down/right
@@ -669,6 +672,7 @@ pub fn gen_arms_model() -> Model<'static> {
         "=1/(SEQUENCE(A1)-1)",
         "=IF(SEQUENCE(A1)>1,NA(),TRUE)",
         "={1,\"t\";TRUE,2}",
+        "=IF(SEQUENCE(A1)>0,\"\",1)",
     ];
     for (i, f) in dynamic.iter().enumerate() {
         let _ = m.set_user_input(0, 1, 4 + 3 * i as i32, f.to_string());
